@@ -132,12 +132,49 @@ class RangeMonitor(object):
 
             return make
 
+        self._attach_l2(ranges)
         attach.patch_method(ranges.Range, "__init__", make_init(False))
         attach.patch_method(ranges.Range, "validate", make_validate(False))
         attach.patch_method(ranges.DecimalRange, "__init__", make_init(True))
         attach.patch_method(ranges.DecimalRange, "validate", make_validate(True))
         self.attached = True
         return self
+
+    def _attach_l2(self, ranges):
+        """L2 (soft, diagnostic): icontract class invariants on Range / DecimalRange - every item has lower <= upper and
+        the overall limits are consistent with the items.  The conditions record and return True (they never raise into
+        cutplace code) and never decide: a broken invariant shows up as a counter in the evidence."""
+        ctx = self.ctx
+        try:
+            import icontract
+        except ImportError:
+            ctx.note("L2 unavailable: icontract is not installed")
+            return
+
+        def items_ordered_and_limits_consistent(self):
+            ctx.count("L2.range-invariant.evaluated")
+            items = getattr(self, "_items", None)
+            if not items:
+                return True
+            try:
+                ok = all(lo is None or hi is None or lo <= hi for lo, hi in items)
+                lowers = [lo for lo, _ in items]
+                uppers = [hi for _, hi in items]
+                want_lower = None if None in lowers else min(lowers)
+                want_upper = None if None in uppers else max(uppers)
+                ok = ok and self._lower_limit == want_lower and self._upper_limit == want_upper
+            except Exception:
+                ok = False
+            if not ok:
+                ctx.count("L2.range-invariant.broken(soft)")
+            return True
+
+        try:
+            icontract.invariant(items_ordered_and_limits_consistent)(ranges.Range)
+            icontract.invariant(items_ordered_and_limits_consistent)(ranges.DecimalRange)
+            ctx.count("L2.range-invariant.attached", 2)
+        except Exception as error:  # a refactored class that icontract cannot decorate: soft monitor skipped
+            ctx.note("L2 unavailable: %r" % (error,))
 
     def _case(self, case, nontrivial):
         if self.register_cases:
